@@ -18,7 +18,7 @@ func TestVerif(t *testing.T) {
 func unitsA() []verifsim.Unit {
 	return []verifsim.Unit{
 		{
-			Name: "AB.thr", Props: []string{"C05", "C06", "C04", "C17", "C15", "C11"}, Run: runAB,
+			Name: "AB.thr", Props: []string{"C05", "C06", "C04", "C17", "C15", "C11", "C12"}, Run: runAB,
 			Rule:    "one case = world-A history with long stretches of continuous motion, seeded throttle configuration (bucket 1-30 s, refill 1-90 s, minimum clip = min-secs+preview-secs as main.go wires it); real MotionProcessor -> real ThrottledRecorder (bucket on the simulated clock) -> tracing sink; executed with and without the throttle; non-trivial = frames reached storage and (a throttle cut or >= 2 files); distinct = throttle configuration + files/cuts + event string",
 			Measure: "ab = (capacity, minimum clip, cuts, files)",
 			Real:    append([]string{"throttle.ThrottledRecorder", "juju/ratelimit.Bucket"}, realA...), Stub: stubA,
